@@ -811,3 +811,26 @@ Definition union_checked (self other : tables) (mapping : list Z) (check_shared 
   do _ <- check_integrity0 self;
   do _ <- check_integrity0 other;
   union self other mapping check_shared add_populations.
+
+(* ------------------------------------------------------------------------------------ *)
+(* Collection-level attributes in the shared-portion check.  tsk_check_subset_equality    *)
+(* ends with tsk_table_collection_equals(…, IGNORE_TS_METADATA | IGNORE_PROVENANCE |       *)
+(* IGNORE_REFERENCE_SEQUENCE) (13176-13181), which — besides the rows — compares the       *)
+(* sequence length, time_units and the metadata schema of every table.  These are not     *)
+(* part of [tables]; they are passed separately as a list of byte strings                 *)
+(* [sequence_length; time_units; schema of each of the seven tables].  The check runs      *)
+(* whenever check_shared_equality is on — also when no node is shared.                     *)
+(* ------------------------------------------------------------------------------------ *)
+Definition attrs := list (list Z).
+Definition attrs_eqb (a b : attrs) : bool := list_eqb zlist_eqb a b.
+
+Definition union_with_attrs (a_self a_other : attrs) (self other : tables) (mapping : list Z)
+           (check_shared add_populations : bool) : res tables :=
+  if negb (zlen mapping =? zlen (t_nodes other)) then Err ERR_UNION_BAD_MAP else
+  if bad_map self mapping then Err ERR_UNION_BAD_MAP else
+  if check_shared && negb (attrs_eqb a_self a_other) then
+    match check_subset_equality self other mapping with
+    | Ok _ => Err ERR_UNION_DIFF_HISTORIES
+    | Err c => Err c | OOB => OOB | Fuel => Fuel
+    end
+  else union self other mapping check_shared add_populations.
